@@ -1,7 +1,7 @@
 """C20 harnesses: confidence scales (stix2/confidence/scales.py) against a frozen copy of STIX 2.1 Appendix A."""
 from stix2.confidence import scales
 
-from engine.hlib import V, pick
+from engine.hlib import V, pick, Native
 
 # Frozen copy of STIX 2.1 Appendix A (label, value, low, high) in increasing-confidence order.
 SPEC = [
@@ -158,3 +158,27 @@ def non_label_objects(sc: int, oi: int) -> bool:
         return True
     V.reached()
     return False
+
+
+def value_after_history(sc: int, v1: int) -> bool:
+    """
+    pre: 0 <= sc < NSC and -2 <= v1 <= 102
+    post: _
+    """
+    sc, v1 = pick(sc, NSC), pick(v1 + 2, 105) - 2
+    to_label = SPEC[sc][1]
+    ok = True
+    with Native():
+        # history: one conversion of v1 on the same scale first; the answer for every v2 must then be the table's, whatever came before
+        for v2 in range(-2, 103):
+            try:
+                to_label(v1)
+            except ValueError:
+                pass
+            try:
+                got = to_label(v2)
+                ok = ok and 0 <= v2 <= 100 and got == spec_label(sc, v2)
+            except ValueError:
+                ok = ok and not (0 <= v2 <= 100)
+    V.reached()
+    return ok
